@@ -4,7 +4,7 @@ budget only stops generation, it never decides anything)."""
 MINIMISE_RUNS = 150
 
 DEFAULT = {
-    "quick": dict(configs=["asan"], types="sdcz", shards=4, cases=3000, max_size=600, budget=40, min_nontrivial=50, alarm=120),
+    "quick": dict(configs=["asan"], types="sdcz", shards=4, cases=6000, max_size=600, budget=40, min_nontrivial=50, alarm=120),
     "thorough": dict(configs=["asan", "asan-vb", "asan-i64"], types="sdcz", shards=4, cases=40000, max_size=1500, budget=420, min_nontrivial=500, alarm=300),
 }
 
@@ -19,6 +19,9 @@ COMMON_NOTE = ("Trusted: the harness's dense long-double reference, the choice-s
                "Exploration only: the property is shown to hold on the generated cases (counts in the evidence file), nothing is proved.")
 
 INFO = {
+    "C03": dict(level="exploration", assumptions=COMMON_ASSUME, note=COMMON_NOTE,
+                technique="property-based testing (rapidcheck) with a validity predicate over the returned SCformat/NCformat structures, ASan addressability of the implied lengths",
+                text="Generated factorizations (complete through ?gstrf/?gssvx, incomplete through ?gsisx) under extreme tunings are checked against a structural validity predicate; many correct outputs exist, so a predicate rather than an expected value is the oracle."),
     "C05": dict(level="exploration", assumptions=COMMON_ASSUME, note=COMMON_NOTE,
                 technique="property-based testing (rapidcheck): residual oracle mapped through the equilibration scalings, bit-exact snapshots of A's index arrays and of B's single documented scaling",
                 text="Generated expert-driver calls over Trans x Equil x IterRefine x storage x ordering x tuning x 4 types; X is checked against op(A)X=B for the caller's original data with the factor-derived bound, and the mutation of A and B is compared with the documented contract."),
@@ -32,7 +35,7 @@ INFO = {
 
 NOT_APPLICABLE = {}
 
-PROPS = ["C01", "C02", "C05"]
+PROPS = ["C01", "C02", "C03", "C05"]
 
 
 def all_props():
